@@ -59,7 +59,21 @@ func main() {
 		if d.Replay == nil {
 			d.Replay = genericReplay(d)
 		}
-		sigs := d.Replay(v)
+		var sigs []string
+		if v.ReplayMode == "exploration-order" {
+			vs, err := engine.RerunShard(prop, v.Tier, v.Shard, v.NShards)
+			if err != nil {
+				fmt.Fprintln(os.Stderr, err)
+				os.Exit(2)
+			}
+			for _, x := range vs {
+				if strings.Join(x.Path, "|") == strings.Join(v.Path, "|") {
+					sigs = append(sigs, x.Signature)
+				}
+			}
+		} else {
+			sigs = d.Replay(v)
+		}
 		fmt.Println("observed signatures:", sigs)
 		for _, s := range sigs {
 			if s == v.Signature {
